@@ -418,3 +418,55 @@ func VP_C11_ExpiryNeedsBothLimits() {
 	}
 	vp.Reach("kept")
 }
+
+// C11-H1b: light-client-attack evidence is admitted only as the exact statement the node derives
+// itself: the list of byzantine validators (who, with what power, in the canonical order), the total
+// power and the time are each equal to the genuine value or perturbed in one respect.
+func VP_C11_LightClientAttack() {
+	e := vpNewEnv(10, 20, 40*time.Minute)
+	pool, err := NewPool(e.db, e.ss, e.bs)
+	if err != nil {
+		panic(err)
+	}
+	ev := e.lca(9)
+	if len(ev.ByzantineValidators) != 2 {
+		panic("both validators signed both blocks")
+	}
+	v0, v1 := ev.ByzantineValidators[0].Copy(), ev.ByzantineValidators[1].Copy()
+	perturb := vp.Choice("perturb", 10)
+	switch perturb {
+	case 0:
+		ev.ByzantineValidators = []*types.Validator{v0, v1}
+	case 1:
+		ev.ByzantineValidators = []*types.Validator{v0, v0.Copy()} // one culprit twice, the other left out
+	case 2:
+		ev.ByzantineValidators = []*types.Validator{v1, v0} // not the canonical order
+	case 3:
+		ev.ByzantineValidators = []*types.Validator{v0}
+	case 4:
+		ev.ByzantineValidators = []*types.Validator{v0, types.NewValidator(ed25519.GenPrivKeyFromSecret([]byte("stranger")).PubKey(), 5)}
+	case 5:
+		p := vp.Int64("listed-power")
+		vp.Assume(p != v1.VotingPower)
+		v1.VotingPower = p
+		ev.ByzantineValidators = []*types.Validator{v0, v1}
+	case 6:
+		t := vp.Int64("ev-total")
+		vp.Assume(t != ev.TotalVotingPower)
+		ev.TotalVotingPower = t
+	case 7:
+		ev.Timestamp = ev.Timestamp.Add(time.Second)
+	case 8:
+		ev.ByzantineValidators = []*types.Validator{v0, v1, v0.Copy()}
+	case 9:
+		ev.ByzantineValidators = []*types.Validator{v1, v1.Copy()}
+	}
+	verr := pool.verify(ev)
+	if perturb == 0 {
+		vp.Reach("accepted")
+		vp.Assert(verr == nil, "C11.verify.genuine-light-client-attack-evidence-is-accepted")
+	} else {
+		vp.Reach("rejected")
+		vp.Assert(verr != nil, "C11.verify.light-client-attack-evidence-perturbed-in-one-field-is-rejected")
+	}
+}
